@@ -13,7 +13,7 @@ LEVEL = "exploration"
 RULE = ("A (exhaustive in both tiers): every starting BUILD id of 1..5 digits incl. zero-padded ones (111,110 ids), "
         "each followed for 3 bumps through "
         "v2version.incr('2020.<id>', 'YYYY.BUILD'). B (Hypothesis): random 6..7 digit ids and boundary ids, 3 bumps, a "
-        "sample through `bumpver test`. C: chains of 4,000 (quick) / 10,000 (thorough) successive bumps from 32 / 208 "
+        "sample through `bumpver test`, steps with --pin-increments / --pin-date mixed in (BUILD is not an INC part). C: chains of 4,000 (quick) / 10,000 (thorough) successive bumps from 32 / 208 "
         "starts crossing every digit-length expansion. Oracle per step: int(new) > int(old); new > old as strings from "
         "the first bumpver-generated value on (at once if the start has >= 4 digits); no leading zero lost (len(new) >= "
         "max(4, len(old)) when int(old) >= 1000, len(new) >= 4 always). Ids "
@@ -24,11 +24,12 @@ ASSUME = ["own lexical-id reference (harness/bumpref.next_build) written from th
 DATE = dt.date(2020, 6, 1)
 
 
-def bump(bid, via_cli=False):
-    """-> new id | 'OVERFLOW' | ('ERR', info)"""
+def bump(bid, via_cli=False, pin=None):
+    """-> new id | 'OVERFLOW' | ('ERR', info).  pin: None | 'increments' | 'date' (flags that must not stall BUILD)"""
     old = "2020." + bid
     if via_cli:
-        r = bv.run(["test", old, "YYYY.BUILD", "--date", DATE.isoformat()], today=DATE)
+        extra = ["--pin-increments"] if pin == "increments" else ["--pin-date"] if pin == "date" else ["--date", DATE.isoformat()]
+        r = bv.run(["test", old, "YYYY.BUILD"] + extra, today=DATE)
         if r.crashed and "max lexical version reached" in (r.exc or ""):
             return "OVERFLOW"
         if r.exit != 0 or r.new_version is None:
@@ -38,7 +39,7 @@ def bump(bid, via_cli=False):
         bv_version.TODAY = DATE
         logging.disable(logging.CRITICAL)
         try:
-            new = v2version.incr(old, "YYYY.BUILD", maybe_date=DATE)
+            new = v2version.incr(old, "YYYY.BUILD", maybe_date=DATE, pin_increments=pin == "increments", pin_date=pin == "date")
         except OverflowError:
             return "OVERFLOW"
         except Exception as ex:
@@ -67,12 +68,12 @@ def step_ok(old, new, first_of_chain):
     return None
 
 
-def follow(start, steps, via_cli=False):
+def follow(start, steps, via_cli=False, pins=None):
     """-> (n_steps, n_nontrivial, violation | None, excluded_at_max)"""
     cur = start
     n = nt = 0
     for i in range(steps):
-        new = bump(cur, via_cli)
+        new = bump(cur, via_cli, pins[i % len(pins)] if pins else None)
         if new == "OVERFLOW":
             if len(cur) >= 4 and set(cur) == {"9"}:
                 return n, nt, None, 1
@@ -131,11 +132,11 @@ def build_b(d):
         if d.chance(1, 3):
             # near an expansion: d99..9x
             start = start[0] + "9" * (len(start) - 2) + start[-1]
-    return {"start": start, "cli": d.chance(1, 12)}
+    return {"start": start, "cli": d.chance(1, 12), "pins": [d.choice([None, None, "increments", "date"]) for _ in range(3)]}
 
 
 def check_b(case):
-    n, nt, bad, exc = follow(case["start"], 3, via_cli=case["cli"])
+    n, nt, bad, exc = follow(case["start"], 3, via_cli=case["cli"], pins=case.get("pins"))
     if bad:
         return viol(bad[0], {}, dict(bad[1], start=case["start"], cli=case["cli"]))
     if exc:
